@@ -192,11 +192,15 @@ func (s fsState) resolve(p string) (File, string, bool) {
 }
 
 func libMinify(mt string, in []byte, o mk.Options) ([]byte, error) {
+	opts := o.Build()
+	m := mk.Full(opts)
 	if d, ok := templateDelims[mt]; ok {
-		o.HTMLTemplateDelims = d
-		mt = "text/html"
+		// as the command registers it: the HTML minifier with the delimiters under the template type, text/html (where
+		// the text of an iframe goes, C11) without
+		h := *opts.HTML
+		h.TemplateDelims = d
+		m.Add(mt, &h)
 	}
-	m := mk.Full(o.Build())
 	return mk.RunM(m, mt, append([]byte{}, in...))
 }
 
